@@ -37,6 +37,10 @@ def stepsOf (k : UInt64) : Nat := ulpsToNat k.toUInt32
 def intOf (k : UInt64) : Int := k.toUInt32.toBitVec.toInt
 def b2u (b : Bool) : UInt64 := if b then 1 else 0
 
+/-- the harness prints every NaN result as the canonical quiet NaN -/
+def canon32 (x : UInt32) : UInt32 := if isNaN32 x then qNaN32 else x
+def canon64 (x : UInt64) : UInt64 := if isNaN64 x then qNaN64 else x
+
 /-- width-generic view of the model and the specification (w = 32: values are zero-extended `UInt32`) -/
 structure Ops where
   isNaN : UInt64 → Bool
@@ -77,10 +81,10 @@ structure Ops where
 def ops32 : Ops where
   isNaN x := isNaN32 x.toUInt32
   isFinite x := isFinite32 x.toUInt32
-  next x := (glmNextFloat32 x.toUInt32).toUInt64
-  prev x := (glmPrevFloat32 x.toUInt32).toUInt64
-  nextN x n := (glmNextFloatN32 x.toUInt32 n).toUInt64
-  prevN x n := (glmPrevFloatN32 x.toUInt32 n).toUInt64
+  next x := (canon32 (glmNextFloat32 x.toUInt32)).toUInt64
+  prev x := (canon32 (glmPrevFloat32 x.toUInt32)).toUInt64
+  nextN x n := (canon32 (glmNextFloatN32 x.toUInt32 n)).toUInt64
+  prevN x n := (canon32 (glmPrevFloatN32 x.toUInt32 n)).toUInt64
   dist x y := (glmFloatDistance32 x.toUInt32 y.toUInt32).toUInt64
   ftNeg x := ftNegative32 x.toUInt32
   ftMan x := (ftMantissa32 x.toUInt32).toUInt64
@@ -112,10 +116,10 @@ def ops32 : Ops where
 def ops64 : Ops where
   isNaN x := isNaN64 x
   isFinite x := isFinite64 x
-  next x := glmNextFloat64 x
-  prev x := glmPrevFloat64 x
-  nextN x n := glmNextFloatN64 x n
-  prevN x n := glmPrevFloatN64 x n
+  next x := canon64 (glmNextFloat64 x)
+  prev x := canon64 (glmPrevFloat64 x)
+  nextN x n := canon64 (glmNextFloatN64 x n)
+  prevN x n := canon64 (glmPrevFloatN64 x n)
   dist x y := glmFloatDistance64 x y
   ftNeg x := ftNegative64 x
   ftMan x := ftMantissa64 x
@@ -287,7 +291,7 @@ def runLines (path : String) : IO UInt32 := do
   let h ← IO.FS.Handle.mk path IO.FS.Mode.read
   let out ← IO.getStdout
   let mut stats : Std.HashMap String OpStat := {}
-  let mut seen : Std.HashSet String := {}
+  let seenRef ← IO.mkRef ({} : Std.HashSet String)
   let mut distinctNontrivial := 0
   let mut lines := 0
   let mut bad := 0
@@ -303,7 +307,7 @@ def runLines (path : String) : IO UInt32 := do
   repeat
     let raw ← h.getLine
     if raw.isEmpty then break
-    let line := raw.trimRight
+    let line := (raw.takeWhile (· != '\n')).copy
     if line.isEmpty then continue
     lines := lines + 1
     let toks := line.splitOn " "
@@ -359,8 +363,8 @@ def runLines (path : String) : IO UInt32 := do
               out.putStrLn s!"MM {line} | libm differs from nextafterSpec"
         -- distinct / non-trivial inputs
         let inKey := s!"{op} {ws} {" ".intercalate argToks}"
-        if !seen.contains inKey then
-          seen := seen.insert inKey
+        let isNew ← seenRef.modifyGet fun s => if s.contains inKey then (false, s) else (true, s.insert inKey)
+        if isNew then
           let allZero := r.all (· == 0)
           let copy := r.size ≤ a.size && (List.range r.size).all fun i => r[i]! == a[i]!
           if !allZero && !copy then
@@ -395,7 +399,7 @@ def runLines (path : String) : IO UInt32 := do
     tmm := tmm + st.mm; tsv := tsv + st.sv; tsil := tsil + st.silent
   for s in exactSample do out.putStrLn s
   for s in bundledSample do out.putStrLn s
-  out.putStrLn s!"SUMMARY lines={lines} bad={bad} mm={tmm} sv={tsv} silent={tsil} distinct={seen.size} nontrivial={distinctNontrivial} exact_checked={exactChecked} exact_impl_viol={exactImplViol} exact_slack={exactSlack} bundled={bundledN} bundled_diff={bundledDiff}"
+  out.putStrLn s!"SUMMARY lines={lines} bad={bad} mm={tmm} sv={tsv} silent={tsil} distinct={(← seenRef.get).size} nontrivial={distinctNontrivial} exact_checked={exactChecked} exact_impl_viol={exactImplViol} exact_slack={exactSlack} bundled={bundledN} bundled_diff={bundledDiff}"
   return 0
 
 /-! ### exhaustive sweep: the same nine values per pattern as `sweepValues` of diff/C14.cpp -/
